@@ -391,6 +391,18 @@ def run(ctx):
     pc = [[rng.choice([1, 4, 16]), n] for n in [10, 11, 12, 499, 500, 501, 502, 511, 512, 513, 1000, 4099]]
     ctx.rules.append("sort-pretest (oracle only): on sorted input every adjacent pair is compared by the serial + parallel pre-sortedness test")
     oracle_tie(ctx, "sort-pretest", exe, ["pretest"], pc, pretest_oracle, bucket=lambda c: "pretest n=%d" % c[1], describe=lambda c: "sorted 0..%d" % (c[1] - 1))
+    ic = [[A, n, d] for A in (0, 2, 3, 8) for n in ([500, 501, 777] if ctx.tier == "quick" else [500, 501, 502, 640, 777, 1024, 4099]) for d in (0, 1)]
+    ctx.rules.append("sort-invsweep (oracle only): every input of n in {500,501,777,...} elements that is sorted (ascending / descending comparator) except for one exchanged adjacent pair, "
+                     "at EVERY position, in the default arena and in arenas of 2, 3 and 8 slots, comes out sorted")
+
+    def inv_oracle(c, toks):
+        d = "parallel_sort of the %s sequence of %d elements with one adjacent pair exchanged, task_arena(%s)" % ("descending" if c[2] else "ascending", c[1], c[0] or "default")
+        if not toks or toks[-1] == "HANG" or toks[0].startswith("CRASH"):
+            return ("sort-hang-or-crash", d)
+        if toks[0] != "0":
+            return ("sort-leaves-inversion", "%s: %s of the %d one-inversion inputs are left unsorted (first: elements %s and %d exchanged)" % (d, toks[0], c[1] - 1, toks[1], int(toks[1]) + 1))
+        return None
+    oracle_tie(ctx, "sort-invsweep", exe, ["invsweep"], ic, inv_oracle, bucket=lambda c: "invsweep A=%d" % c[0], describe=lambda c: "one-inversion sweep n=%d arena=%d" % (c[1], c[0]), timeout=900)
 
 
 def replay(ctx, rep):
